@@ -16,6 +16,7 @@ import numpy as np
 from harness import bootstage as S
 from harness import common as C
 from harness import election as E
+from harness import extract as X
 
 PROP = "C08"
 MODULES = ["ElexModel.Props.C08"]
@@ -253,6 +254,10 @@ def api_histories(run, n):
                           "election": e.describe()}
                     predicates(run, pc, [o[0], o[1 + 2 * j], o[2 + 2 * j]])
         run.traces += 1
+
+
+def extract(run):
+    return X.generate("C08")
 
 
 def explore(run, driver, budget):
